@@ -4,6 +4,8 @@ mod cli;
 mod common;
 mod geo1;
 mod geo2;
+mod ilv;
+mod io_props;
 mod rsx;
 mod mc_props;
 mod mcx;
@@ -50,6 +52,9 @@ fn main() {
         "C03" => geo2::c03(tier),
         "C04" => geo2::c04(tier),
         "C08" => rsx::c08(tier),
+        "C09" => ilv::c09(tier),
+        "C10" => io_props::c10(tier),
+        "C11" => io_props::c11(tier),
         "C02" => geo1::c02(tier),
         "C05" => mc_props::c05(tier),
         "C06" => mc_props::c06(tier),
@@ -77,6 +82,9 @@ fn replay(prop: &str, path: &str) -> ! {
     }
     if case.get("engine").and_then(|e| e.as_str()) == Some("state") {
         geo2::replay_state(prop, case);
+    }
+    if case.get("engine").and_then(|e| e.as_str()) == Some("ilv") {
+        ilv::replay(case);
     }
     if case.get("engine").and_then(|e| e.as_str()) == Some("rsx") {
         rsx::replay(case);
